@@ -146,6 +146,9 @@ var c01customs = []c01custom{
 	{19, "swell19", slog.ErrorLevel, true},
 	{100, "dbg100", slog.DebugLevel, false},
 	{101, "trc101", slog.TraceLevel, true},
+	{20, "crit20", slog.FatalLevel, true},
+	{21, "emerg21", slog.PanicLevel, false},
+	{22, "caution22", slog.WarnLevel, false},
 }
 
 func c01register(c c01custom) {
